@@ -606,6 +606,30 @@ func (ck *Check) addedTaint(rule string, us *updSite) {
 			}
 		}
 	}
+	if !okE && e != nil && e.Kind == "call" && e.Fn != nil && pkgPathOfFn(e.Fn) == "cmp" && strings.HasPrefix(e.Fn.Name(), "Or") && len(e.Args) == 1 {
+		// cmp.Or(effect, NoSchedule): the first argument that is not the zero value
+		if sl, ok := e.Args[0].Val.(*ssa.Slice); ok {
+			if els, ok := variadicElems(sl); ok && len(els) == 2 {
+				// read in the frame the call was made in (the constructor's, with its parameters bound)
+				c2 := ctx
+				if e.C != nil {
+					c2 = e.C
+				}
+				first, second := c2.Term(els[0]), c2.Term(els[1])
+				isParam := false
+				for _, p := range fn.Params {
+					if strings.HasSuffix(typeName(p.Type()), "TaintEffect") && first.Key() == paramTerm(p).Key() {
+						isParam = true
+					}
+				}
+				if isParam && second.Kind == "const" && second.Name == `"NoSchedule"` {
+					okE = true
+				} else {
+					whyE = "cmp.Or is not given (the configured effect, NoSchedule): " + first.String() + ", " + second.String()
+				}
+			}
+		}
+	}
 	ck.cond(okE, rule, key+"/Effect", ck.P.instrPos(st), funcID(fn), "Effect ← the configured effect if non-empty, else NoSchedule", fmt.Sprint(e), whyE)
 }
 
@@ -775,6 +799,25 @@ func (ck *Check) timeRoundTrip(rule string) {
 			}
 		}
 		got = fmt.Sprint(stored)
+		// the decoding in a helper `decode(taint) (time.Time, error)`: what it returns next to a nil error
+		if stored != nil && stored.Kind == "extract" && stored.Name == "0" && len(stored.Args) == 1 && stored.Args[0].Kind == "call" {
+			if h := stored.Args[0].Fn; h != nil && ck.P.inRepo(h) && h.Blocks != nil && h.Signature.Results().Len() == 2 {
+				ch := ctx.childTerm(stored.Args[0])
+				ch.depth = 0
+				var vals []*Term
+				for _, hb := range h.Blocks {
+					if hr, isRet := hb.Instrs[len(hb.Instrs)-1].(*ssa.Return); isRet && len(hr.Results) == 2 {
+						if et := ch.Term(hr.Results[1]); et.Kind == "const" && et.Name == "nil" {
+							vals = append(vals, ch.Term(hr.Results[0]))
+						}
+					}
+				}
+				if len(vals) == 1 {
+					stored = vals[0]
+					got = fmt.Sprint(stored)
+				}
+			}
+		}
 		if stored != nil && stored.Kind == "call" && stored.Name == "time.Unix" && len(stored.Args) == 2 && stored.Args[1].Name == "0" {
 			p := stored.Args[0]
 			if isExtractOf(p, 0, func(t *Term) bool {
@@ -2957,16 +3000,14 @@ func (ck *Check) clusterView(rule string) {
 				}
 			}
 			if usesParam {
-				for _, caller := range ck.P.callers[fn] {
-					for _, site := range callsTo(caller, fn) {
-						e := map[*ssa.Parameter]ssa.Value{}
-						for k, av := range site.Common().Args {
-							if k < len(fn.Params) {
-								e[fn.Params[k]] = av
-							}
+				for _, site := range ck.P.staticSitesOf(fn) {
+					e := map[*ssa.Parameter]ssa.Value{}
+					for k, av := range site.Common().Args {
+						if k < len(fn.Params) {
+							e[fn.Params[k]] = av
 						}
-						envs = append(envs, e)
 					}
+					envs = append(envs, e)
 				}
 			}
 			if len(envs) == 0 {
